@@ -294,6 +294,20 @@ func (fx *FnExec) specEnvReturn(r retInfo) *SpecEnv {
 // loopPositions returns, per loop ordinal, a position inside the loop body scope.
 func (fx *FnExec) loopPositions() []token.Pos {
 	var out []token.Pos
+	for _, s := range fx.loopStmts() {
+		switch x := s.(type) {
+		case *ast.ForStmt:
+			out = append(out, x.Body.Lbrace+1)
+		case *ast.RangeStmt:
+			out = append(out, x.Body.Lbrace+1)
+		}
+	}
+	return out
+}
+
+// loopStmts returns the for/range statements of the function in source order.
+func (fx *FnExec) loopStmts() []ast.Stmt {
+	var out []ast.Stmt
 	syn := fx.fn.Syntax()
 	if syn == nil {
 		return nil
@@ -313,9 +327,9 @@ func (fx *FnExec) loopPositions() []token.Pos {
 		case *ast.FuncLit:
 			return false
 		case *ast.ForStmt:
-			out = append(out, s.Body.Lbrace+1)
+			out = append(out, s)
 		case *ast.RangeStmt:
-			out = append(out, s.Body.Lbrace+1)
+			out = append(out, s)
 		}
 		return true
 	})
@@ -336,6 +350,29 @@ func (fx *FnExec) specEnvAt(st *State, head *ssa.BasicBlock) *SpecEnv {
 		env.vars[k] = v
 	}
 	env.locals = func(name string) (specVal, bool) { return fx.localAt(st, name, pos) }
+	// range loops over slices: at the loop head the hidden cell "rangeindex" holds
+	// the previous index; the key variable (and the pseudo variable range_i) denote
+	// the index about to be visited, i.e. the number of completed iterations
+	if rs, ok := fx.loopStmts()[li.ordinal].(*ast.RangeStmt); ok && len(head.Instrs) > 0 {
+		if ld, ok := head.Instrs[0].(*ssa.UnOp); ok && ld.Op == token.MUL {
+			if ra, ok := ld.X.(*ssa.Alloc); ok && ra.Comment == "rangeindex" {
+				if cur, ok := st.cells[ra]; ok {
+					next := specVal{Add(cur, IntLit(1)), tInt}
+					env.vars["range_i"] = next
+					if id, ok := rs.Key.(*ast.Ident); ok && id.Name != "_" {
+						key := id.Name
+						inner := env.locals
+						env.locals = func(name string) (specVal, bool) {
+							if name == key {
+								return next, true
+							}
+							return inner(name)
+						}
+					}
+				}
+			}
+		}
+	}
 	return env
 }
 
